@@ -23,7 +23,7 @@ SPEC = {
         'bytes reader only (the io reader is property C03); amd64',
     ],
     'trusted_extra': ['modelled, not verified: jsonEncDriver/jsonDecDriver structure, the generic naked-decoding path and bytesDecReader as far as json uses them; typed decoding (DecodeBool/DecodeTime/DecodeBytes...) is outside this check'],
-    'harness_timeout': {'quick': 300, 'thorough': 1500},
+    'harness_timeout': {'quick': 1500, 'thorough': 5400},
 }
 
 
